@@ -534,7 +534,7 @@ def run_list(calls, jit, tag, timeout):
     """run the call list in parallel chunks; returns list of results (None where a worker died) + died chunks"""
     nwk = min(cm.NCPU if jit else cm.NCPU, max(1, len(calls) // 8))
     chunks = [calls[i::nwk] for i in range(nwk)]
-    res = cm.run_impl_parallel(PID, "c20", [dict(calls=ch, budget=60.0 if jit else 240.0) for ch in chunks], timeout=timeout, jit=jit, tag=tag)
+    res = cm.run_impl_parallel(PID, "c20", [dict(calls=ch, budget=200.0 if jit else 400.0) for ch in chunks], timeout=timeout, jit=jit, tag=tag)
     out = [None] * len(calls)
     dead = []
     for w, (rr, ch) in enumerate(zip(res, chunks)):
@@ -544,7 +544,8 @@ def run_list(calls, jit, tag, timeout):
                 out[i] = x
         else:
             # re-run one call per process to find the culprit
-            singles = cm.run_impl_parallel(PID, "c20", [dict(calls=[c], budget=60.0 if jit else 240.0) for c in ch], timeout=600, jit=jit,
+            # (alone, with a generous limit: load or a cold cache must not be mistaken for a hang)
+            singles = cm.run_impl_parallel(PID, "c20", [dict(calls=[dict(c, budget=900.0)], budget=900.0) for c in ch], timeout=1200, jit=jit,
                                            tag=f"{tag}_iso{w}_")
             for i, s in zip(idxs, singles):
                 if s["status"] == "ok":
@@ -589,7 +590,7 @@ def run(tier, seed, replay=None):
         "reported as a distribution, distances/depths/booleans are judged",
     ]
     if (cm.COQ / "theories" / "Props" / "C20.v").exists():
-        R.check_proofs(PROOF_FILES)
+        R.check_proofs(PROOF_FILES, build_targets=["theories/Props/C20.vo"])
     else:
         R.proof_broken.append("Props/C20.v missing")
 
